@@ -116,13 +116,20 @@ func (r *Run) mergeInputs(fi *prog.FuncInfo, call *ast.CallExpr) (producers []*t
 		return nil, false
 	}
 	arg := call.Args[0]
-	// a parameter of an extracted helper with one call site stands for the argument there
+	// a parameter / receiver (field) of an extracted helper with one use site stands for the
+	// argument / value there
 	if id, ok := ast.Unparen(arg).(*ast.Ident); ok {
 		if a := derefStep(info, id); a != nil {
 			if sc := r.P.ScopeAt(a.Pos()); sc != nil && sc.Fn != nil && sc.Fn != fi && sc.Fn.Decl != nil {
 				fi, arg = sc.Fn, a
 				info = fi.Pkg.TypesInfo
 			}
+		}
+	}
+	if a := deref(info, arg); a != ast.Unparen(arg) {
+		if sc := r.P.ScopeAt(a.Pos()); sc != nil && sc.Fn != nil && sc.Fn != fi && sc.Fn.Decl != nil {
+			fi, arg = sc.Fn, a
+			info = fi.Pkg.TypesInfo
 		}
 	}
 	def := resolveLocal(info, fi.Decl.Body, arg)
